@@ -6,7 +6,7 @@ Borrowed streams: the malformed / truncated / arbitrary-input cases of the front
 re-run here under their own reference oracles plus the C20 rule: no PANIC, no dead case, no hang."""
 import hashlib, os, re
 from .base import *
-from . import c04, c06, c07, c15, c16, c17
+from . import c04, c06, c07, c10, c15, c16, c17
 
 RULE = ("hostile: random byte strings and valid frame sequences mutated by bit flips, truncation, duplication, reordering and "
         "length-field corruption, all 256 command bytes with boundary stream ids and lengths, role-illegal frames, settings / scheme "
@@ -25,7 +25,9 @@ REPO = os.environ.get("VERIF_REPO", "/repo")
 
 BORROW = [(c04, ("non-ascii", "junk", "malformed", "oversize", "hostile", "bad", "shape")), (c06, ("trunc", "malformed", "garbage", "bad", "deviation")),
           (c07, ("malformed", "bad", "trunc", "garbage", "invalid")), (c15, ("malformed", "bad", "trunc", "garbage", "partial", "oversize")),
-          (c16, ("malformed", "bad", "trunc", "req-", "version", "garbage", "cmd")), (c17, ("malformed", "non-ascii", "bad", "garbage", "64k"))]
+          (c16, ("malformed", "bad", "trunc", "req-", "version", "garbage", "cmd")), (c17, ("malformed", "non-ascii", "bad", "garbage", "64k")),
+          # peer-supplied refusal texts (empty, whitespace, NUL, 64 KiB, not UTF-8, long multi-byte UTF-8), unknown ids, frames out of place
+          (c10, ("open-race",))]
 
 
 def default_scheme():
@@ -145,7 +147,7 @@ def gen_cases(tier, seed):
     return cs
 
 
-MODS = {"c04": c04, "c06": c06, "c07": c07, "c15": c15, "c16": c16, "c17": c17}
+MODS = {"c04": c04, "c06": c06, "c07": c07, "c15": c15, "c16": c16, "c17": c17, "c10": c10}
 
 
 def after_impl(cases, impl):
